@@ -121,4 +121,36 @@ the epoch) is the same function as the `regress` of the theorems above. -/
 theorem centred_evaluation_is_the_same_fit (ds : List (K × K × K)) (hd : det ds ≠ 0) :
     regressCentred ds = regress ds := regressCentred_eq ds hd
 
+/-- **Every touch is fitted to its own strikes**: `initialise_line` empties the data set, whoever leads
+(when Wheatley leads, its own first blow is the only point left), so nothing heard in an earlier touch of
+the session takes part in any regression of the new one. -/
+theorem look_to_forgets_data (r : Reg K) (reg : List (K × K × K) → K × K) (stage : Nat) (t : K) :
+    (r.initialiseLine reg stage true t).dataSet = [] ∧
+    (r.initialiseLine reg stage false t).dataSet.length ≤ 1 := by
+  constructor
+  · simp [Reg.initialiseLine, Reg.resetForTouch]
+  · simp only [Reg.initialiseLine, Bool.not_false, if_true]
+    have hd : (r.resetForTouch stage).dataSet = [] := rfl
+    have hrel : ∀ (q : Reg K) (fit : K × K) (i : K), (q.relerp fit i).dataSet = q.dataSet := by
+      intro q fit i; unfold Reg.relerp; cases q.start <;> rfl
+    have : ((r.resetForTouch stage).addDataPoint reg 0 0 t (Num.ofNat 1)).dataSet =
+        (r.resetForTouch stage).newDataSet 0 0 t (Num.ofNat 1) := by
+      unfold Reg.addDataPoint
+      simp only []
+      by_cases h1 : Num.eqb (if 0 < 0 then (r.resetForTouch stage).preferredInertia
+          else (r.resetForTouch stage).initialInertia) (Num.ofNat 1 : K) = true
+      · rw [if_pos h1]
+      · rw [if_neg h1]
+        by_cases h2 : (r.resetForTouch stage).minBells ≤
+            (((r.resetForTouch stage).newDataSet 0 0 t (Num.ofNat 1)).length : Int)
+        · rw [if_pos h2, hrel]
+        · rw [if_neg h2]
+    show ((r.resetForTouch stage).addDataPoint reg 0 0 t (Num.ofNat 1)).dataSet.length ≤ 1
+    rw [this]
+    unfold Reg.newDataSet
+    simp only [hd, List.nil_append]
+    split
+    · rw [List.length_tail]; exact le_trans (Nat.sub_le _ _) (List.length_filter_le _ _)
+    · exact List.length_filter_le _ _
+
 end Wheatley.C12
